@@ -85,6 +85,10 @@ func ProfileFor(name string) Profile {
 		p.Concurrent, p.MaxAuctions, p.TxPerBlock = true, 6, 5
 	case "hooks": // C17 background
 		p.Listeners = 2
+	case "deep": // thorough tier: more auctions, longer histories, deep rounds and schedules
+		p.MaxAuctions, p.Blocks, p.TxPerBlock = 6, [2]int{40, 110}, 4
+		p.Vesting, p.MaxRounds = [2]int{0, 30}, [2]int{0, 12}
+		p.WCapChange, p.WParams, p.WModify = 0.12, 0.05, 0.2
 	case "cli": // C20: histories the command line can express
 		p.MaxAuctions, p.Vesting, p.Blocks, p.TxPerBlock = 3, [2]int{1, 1}, [2]int{6, 14}, 2
 		p.Faults = map[string]float64{}
